@@ -39,6 +39,15 @@ pub fn decode(tape: &[u8]) -> (Head, Input) {
 /// `--partial` argument for the subset `bits` of `names`; style varies the spelling
 /// (order, duplicates, empty items) without changing the set.
 pub fn partial_arg(names: &[String], bits: u32, style: usize) -> (Vec<String>, String) {
+    // The two top bits of the drawn word select the shape of the subset: a uniformly random subset (half of the
+    // cases), exactly one check, or exactly two checks. Single checks matter because the pipeline schedules the
+    // shared analyses (function signatures, pointer inference, string abstraction) per selection.
+    let n = names.len().max(1) as u32;
+    let bits = match bits >> 30 {
+        2 => 1u32 << (((bits >> 20) & 0x3ff) % n),
+        3 => (1u32 << (((bits >> 20) & 0x3ff) % n)) | (1u32 << (((bits >> 10) & 0x3ff) % n)),
+        _ => bits & 0x3fff_ffff,
+    };
     let mut sel: Vec<String> = names.iter().enumerate().filter(|(i, _)| bits & (1 << i) != 0).map(|(_, n)| n.clone()).collect();
     let set = sel.clone();
     match style {
